@@ -61,7 +61,7 @@ def DTables.nonneg (t : DTables) : Bool :=
   t.finite && (t.P.all (· ≥ 0)) && (t.F.all (· ≥ 0)) && (t.E.all (· ≥ 0))
 
 /-- a built-in transition model: `Hmm.AutoTM` / `Hmm.FullTM` (rows = C19's simplices, equilibrium
-vector = row 0 of P^256 by C04's `pow`) -/
+vector by squaring until the rows agree) -/
 inductive TM where
   | auto (m : AutoTM Float)
   | full (m : FullTM Float)
@@ -391,7 +391,7 @@ def derivVerdict (o : Obj) (impl : List String) (var : String) (order : Nat) : S
       -- double range of the log-sum recursions: they divide by every emission probability (squared at order 2)
       let eLo : Float := if order == 1 then 1e-140 else 1e-95
       let applicable := match o.core with
-        | .resc _ => stationary t
+        | .resc _ => true
         | .log _ => t.positive && t.E.all (· ≥ eLo)
         | .low _ => false
       if o.stale || !t.nonneg || !applicable || !validBreaks t.T o.bps || !rangeOk t o.bps then "-" else
@@ -426,7 +426,7 @@ def derivSiteVerdict (o : Obj) (impl : List String) (site : Nat) (second : Bool)
       -- the second-order accessor of the rescaled class mixes the arrays of the two variables when they differ
       if second && var != var2 then "-" else
       let applicable := match o.core with
-        | .resc _ => stationary t
+        | .resc _ => true
         | .log _ => t.positive && t.E.all (· ≥ 1e-95)
         | .low _ => false
       if !t.nonneg || !applicable || !validBreaks t.T o.bps || !rangeOkAt 1e-95 t o.bps then "-" else
@@ -479,13 +479,33 @@ def stationaryOf (n : Nat) (P : List Float) (pi : List Float) (tol : Float := 1e
     let v := (List.range n).foldl (fun a k => a + (pi.getD k 0.0) * (P.getD (k * n + j) 0.0)) 0.0
     Float.abs (v - pi.getD j 0.0) ≤ tol)
 
-/-- the remainder of `full_stationary_remainder`: row 0 of `P^256` is stationary up to
-`2·(1 − n·δ)^256`, `δ` the smallest entry of `P` (plus 1e-9 for the rounding of 8 squarings) -/
-def fullTol (n : Nat) (P : List Float) : Float :=
-  let d := P.foldl (fun a x => if x < a then x else a) 1.0
-  let c := 1.0 - Float.ofNat n * d
-  let c := if c < 0.0 then 0.0 else c
-  2.0 * Float.pow c 256.0 + 1e-9
+/-- Gauss–Jordan elimination in exact arithmetic: the solution of `A x = b` (`A` square, given by rows with `b`
+appended), `none` when a pivot is missing -/
+def gaussSolve (rows : List (List Rat)) : Option (List Rat) :=
+  let n := rows.length
+  let step (acc : Option (List (List Rat))) (c : Nat) : Option (List (List Rat)) :=
+    acc.bind (fun m =>
+      match (List.range n).find? (fun r => r ≥ c && (m.getD r []).getD c 0 != 0) with
+      | none => none
+      | some r =>
+        let pr := m.getD r []
+        let pv := pr.getD c 0
+        let prn := pr.map (· / pv)
+        let m1 := (m.set r (m.getD c [])).set c prn
+        some (m1.mapIdx (fun i row => if i == c then row else
+          let f := row.getD c 0
+          (row.zip prn).map (fun (x, y) => x - f * y))))
+  ((List.range n).foldl step (some rows)).map (fun m => m.map (fun r => r.getD n 0))
+
+/-- the stationary distribution of the `n × n` matrix `P` solved independently of the library: `π (P − I) = 0`
+with the last equation replaced by `Σ π = 1`, in exact arithmetic on the doubles of `P` -/
+def solveStationary (n : Nat) (P : List Float) : Option (List Rat) :=
+  if n == 0 || P.length != n * n || !(P.all Float.isFinite) then none else
+  let q := P.map ratOf
+  let eqs := (List.range n).map (fun j =>
+    if j + 1 == n then (List.replicate n (1 : Rat)) ++ [1]
+    else (List.range n).map (fun k => q.getD (k * n + j) 0 - (if k == j then 1 else 0)) ++ [0])
+  gaussSolve eqs
 
 def parseLambda (name : String) : Option Nat :=
   if name.startsWith "lambda" then ((name.drop 6).toString.toNat?).bind (fun k => if k ≥ 1 && (name.drop 6).toString == toString k then some (k - 1) else none) else none
@@ -584,7 +604,15 @@ def eqVerdict (tm : TM) (P : List Float) (xs : List Float) : String :=
   let n := tm.n
   match tm with
   | .auto _ => if stationaryOf n P xs then "ok" else "FAIL:autocorr_stationary"
-  | .full _ => if !stochasticRows n P then "-" else if stationaryOf n P xs (fullTol n P) then "ok" else "FAIL:full_stationary"
+  | .full _ =>
+    if !stochasticRows n P then "-" else
+    -- a genuine stationary distribution: the residual `π·P − π` is small *and* the vector is the independently
+    -- solved fixed point (a small residual alone says little for a matrix close to the identity)
+    if !stationaryOf n P xs then "FAIL:full_stationary" else
+    match solveStationary n P with
+    | none => "-"
+    | some star =>
+      if (star.zip xs).all (fun (q, x) => Float.abs (x - ratToFloat q) ≤ 1e-9) then "ok" else "FAIL:full_stationary"
 
 def histTM (impl : List String) (spec : String) : String :=
   if " ".intercalate impl == spec then "ok" else "FAIL:transition_history_independent"
@@ -927,13 +955,15 @@ def step (s : St) (op : List String) (impl : Option (List String)) : St × Strin
         if dop != "d1" && dop != "d2" then (s, "bad-op", "-") else
         let mop : Op Float := if dop == "d1" then .d1 var else .d2 var
         let (o1, a) := runOp o mop
-        let o2 := match a with | .exc => { o1 with stale := true } | _ => o1
+        -- the low-memory class does not implement derivatives: the call raises and changes nothing
+        let o2 := match a, o.core with | .exc, .low _ => o1 | .exc, _ => { o1 with stale := true } | _, _ => o1
         (s.put k o2, showAns a,
             match impl with
-            | some i => if isExc i || var == "" then "-" else
+            | some i =>
                 (match o.core with
-                 | .low _ => "-"
-                 | _ => both (derivVerdict o i var (if dop == "d1" then 1 else 2)) (histCheck o i (specOf o mop)))
+                 | .low _ => if isExc i then "ok" else "FAIL:history_independent"
+                 | _ => if isExc i || var == "" then "-" else
+                     both (derivVerdict o i var (if dop == "d1" then 1 else 2)) (histCheck o i (specOf o mop)))
             | none => "-")
       | _, _ => (s, "bad-op", "-")
   | _ => (s, "bad-op", "-")
